@@ -37,10 +37,41 @@ def is_prime(n):
 
 
 def run(ctx):
+    g = ctx.facts.getters()
+    elim = [ctx.facts.bodies[d] for d in sorted(ctx.facts.bodies) if ("geometry::traits::Entry" in d or "impl geometry::traits::Entry for" in d) and "{closure" not in d] + \
+        [ctx.body(t) for t in TWINS] + [ctx.body(s) for s in SOLVES]
+    ctx.scan(elim)
+    k = no_stale_elements(ctx, "T3-no-stale-element", elim, g)
+    ctx.floor("elimination routines scanned for stale element reads", k, 12)
+    padic_steps(ctx, g)
     residues(ctx)
     modulus(ctx)
     pivot(ctx)
     solve_guards(ctx)
+
+
+def padic_steps(ctx, g):
+    """the Hadamard-type bound drops the smallest of all n+1 norms: `skip(1)` must be applied to the list while it is sorted,
+    and the list must contain the right-hand side's norm as well as the column norms"""
+    ctx.clauses.append("p-adic step bound: the smallest norm is dropped from the complete, sorted list (T9)")
+    b = ctx.body("geometry::modular_solver::number_of_p_adic_steps_needed")
+    ctx.scan([b])
+    skips = list(b.calls("Iterator::skip"))
+    ctx.floor("skip(..) uses in number_of_p_adic_steps_needed", len(skips), 1)
+    for bi, t in skips:
+        recv = strip(b.origin(t["args"][0]))
+        root = recv
+        while root[0] == "call" and root[2]:
+            root = strip(root[2][0])
+        n = norm(b.origin(t["args"][1]), g)
+        ok = root[0] == "local" and sorted_at(b, root[1], bi, g)
+        ctx.ob("T9-sorted-before-skip", b.name, "log_norms.iter().skip(1)", "ok" if ok and n == ("int", 1) else "violation",
+               "the norm list is sorted (and not modified afterwards) when its smallest element is skipped" if ok and n == ("int", 1) else
+               "skip(%s) is applied to a list that is not sorted at that point (no dominating sort, or modified after sorting): the element dropped from the bound is not the smallest norm, the step count can be too small" % show(n, 1), b.span_of(bi))
+        if root[0] == "local":
+            pushes = [bj for bj, t2 in b.calls("Vec::<T, A>::push") if strip(b.origin(t2["args"][0]))[0] == "local" and strip(b.origin(t2["args"][0]))[1] == root[1]]
+            okp = any(b.dominates(bj, bi) for bj in pushes)
+            ctx.require(okp, "T9-sorted-before-skip", b.name, "push(norm of rhs)", "the right-hand side's norm is part of the list", "the right-hand side's norm is not added to the list before the bound is computed", b.span_of(bi))
 
 
 # ---------------------------------------------------------------- (1) T1 + T7
